@@ -306,6 +306,13 @@ fn main() {
             let inp = &corpus[k / 2];
             println!("{}", serde_json::json!({"id": format!("{}~{}", inp.id, if k % 2 == 1 { "stable" } else { "default" }), "source": inp.source, "hex": cases::hex(&inp.bytes[..inp.bytes.len().min(4096)])}));
         }
+        Some("par-digests") => {
+            let inputs = cases::resolve_inputs(&get("inputs", "par:20"), seed);
+            // inputs are processed one after the other; the parallelism under test is walrus's own
+            let lines: Vec<_> = inputs.iter().map(cases::par_case).collect();
+            cases::write_lines(&out, &lines);
+            println!("cases {} parallel_feature {}", lines.len(), cfg!(feature = "parallel"));
+        }
         Some("digests") => {
             // one line per input: id and digest of  parse ; emit  with the default switches (separate process per call)
             let inputs = cases::resolve_inputs(&get("inputs", "gen:100"), seed);
